@@ -431,6 +431,45 @@ Proof.
   repeat split; try congruence. destruct Hi3 as (_ & _ & _ & He). apply He. congruence.
 Qed.
 
+(* a raising task always ends in ERROR with a message: from the moment the task is about to raise the Exception
+   (ty, m) — whatever that exception carries: the message is a total function of (ty, m) — the worker's next step
+   records it, caller actions in between change nothing, and the following worker step sets ERROR; the wrapper's
+   handler has no other exit *)
+Definition is_act (e : ev) : Prop := match e with Act _ => True | Wk => False end.
+
+Lemma acts_keep_pexc c p ty m l : forall s, Inv c p s -> pc s = PExc ty m -> Forall is_act l ->
+  pc (fst (run c p s l)) = PExc ty m.
+Proof.
+  induction l as [|e l IH]; intros s Hi Epc Hf; cbn; [exact Epc|]. inversion Hf; subst.
+  pose proof (step_inv c p s e Hi) as Hi1.
+  assert (E1 : pc (fst (step c p s e)) = PExc ty m).
+  { destruct e as [|[| | |md a k|cb]]; cbn in *; try contradiction.
+    - pose proof (do_status_fields c s) as F. cbv zeta in F. destruct (do_status c s); cbn in *. brk. congruence.
+    - exact Epc.
+    - pose proof (do_get_fields c s) as F. cbv zeta in F. destruct (do_get c s); cbn in *. brk. congruence.
+    - destruct Hi as (Hp & _). unfold pc_inv in Hp. rewrite Epc in Hp. destruct Hp as (Est & _).
+      unfold do_exec. rewrite Est. exact Epc.
+    - exact Epc. }
+  destruct (step c p s e) as [s1 o]; cbn in *. specialize (IH s1 Hi1 E1 H2). destruct (run c p s1 l); exact IH.
+Qed.
+
+Theorem raising_task_ends_in_error c p l1 l2 l3 ty m :
+  pc (final c p l1) = PTask [] false -> out p = ORaise ty m -> Forall is_act l2 ->
+  let s := final c p (l1 ++ Wk :: l2 ++ Wk :: l3) in
+  status s = Error /\ msg s = MErr ty m /\ results s = None.
+Proof.
+  cbv zeta. intros Epc Ho Hf.
+  assert (E : pc (final c p (l1 ++ Wk :: l2)) = PExc ty m).
+  { rewrite final_app. cbn [run]. pose proof (step_inv c p _ Wk (final_inv c p l1)) as Hi1.
+    assert (E1 : pc (fst (step c p (final c p l1) Wk)) = PExc ty m) by (cbn; unfold wk; rewrite Epc, Ho; reflexivity).
+    destruct (step c p (final c p l1) Wk) as [s1 o]; cbn in *.
+    pose proof (acts_keep_pexc c p ty m l2 s1 Hi1 E1 Hf) as K. destruct (run c p s1 l2); exact K. }
+  pose proof (final_state_after_raise c p (l1 ++ Wk :: l2) l3 ty m E) as T. cbv zeta in T.
+  replace (l1 ++ Wk :: l2 ++ Wk :: l3) with ((l1 ++ Wk :: l2) ++ Wk :: l3)
+    by (rewrite <- app_assoc; reflexivity).
+  destruct T as (_ & T1 & T2 & T3). auto.
+Qed.
+
 (* a task that raised is never reported successful: true for Exceptions ... *)
 Theorem never_success_when_task_raised_partial c p l ty m : out p = ORaise ty m -> status (final c p l) <> Success.
 Proof. intros Ho Hs. destruct (final_inv c p l) as (_ & _ & H & _). exact (H ty m Hs Ho). Qed.
